@@ -201,6 +201,9 @@ pub struct WorldCfg {
     pub alt_targets: Vec<IpAddr>,
     /// Intervals (virtual ns since the virtual epoch) during which the network drops everything.
     pub blackouts: Vec<(u64, u64)>,
+    /// Route changes: from the given instant (virtual ns since the virtual epoch) the path to the
+    /// target is the given topology (same target address).
+    pub reroutes: Vec<(u64, Topology)>,
 }
 
 // ------------------------------------------------------------------------------------------------
@@ -336,6 +339,12 @@ pub struct WorldInner {
     isn: u32,
     /// Extra packets to inject: (arrive, v6, bytes, src) - used by C04 and adversarial scripts.
     pub inject_on_send: Vec<Box<dyn FnMut(&WirePacket, &mut Prng) -> Vec<Injected> + Send>>,
+    /// Virtual-time budget of the run: once the clock passes it every socket call fails (ETIME),
+    /// so that a tracer that never finishes its rounds is decided on logical time, not by the
+    /// wall-clock watchdog.
+    pub virtual_deadline: Option<u64>,
+    pub deadline_hit: bool,
+    last_t: u64,
 }
 
 /// A packet injected by a script.
@@ -398,6 +407,9 @@ impl World {
                 buckets: HashMap::new(),
                 isn: 0x1000_0000,
                 inject_on_send: Vec::new(),
+                virtual_deadline: None,
+                deadline_hit: false,
+                last_t: 0,
             }),
             sched: Mutex::new(SchedState {
                 active: (0..n).collect(),
@@ -531,6 +543,7 @@ impl WorldInner {
     }
 
     fn log(&mut self, t: u64, tracer: usize, sock: SockId, op: Op, ev: Ev, err: Option<i32>) {
+        self.last_t = self.last_t.max(t);
         let idx = self.log.len();
         self.log.push(LogEntry {
             idx,
@@ -553,6 +566,10 @@ impl WorldInner {
             *c += 1;
             n
         };
+        if self.virtual_deadline.is_some_and(|d| self.last_t > d) {
+            self.deadline_hit = true;
+            return Some(libc::ETIME);
+        }
         if let Some(f) = self.cfg.faults.at_call.get(&call) {
             return Some(f.errno);
         }
@@ -652,7 +669,8 @@ impl WorldInner {
 
     /// The network: what comes back for a wire packet.
     fn route(&mut self, wp: &WirePacket) -> (Vec<PktId>, Option<(u64, RespKind)>) {
-        let topo = self.cfg.topo.clone();
+        let rel0 = wp.t.saturating_sub(crate::clock::EPOCH_NS);
+        let topo = self.cfg.reroutes.iter().rev().find(|(from, _)| rel0 >= *from).map_or_else(|| self.cfg.topo.clone(), |(_, t)| t.clone());
         let mut out = Vec::new();
         if (wp.dst != topo.target_addr() && !self.cfg.alt_targets.contains(&wp.dst)) || wp.ttl == 0 {
             return (out, None);
